@@ -19,6 +19,7 @@ NEGATIVE = [
     ("SimpleDBDisk.tla", "NEG_Disk_droptomb.cfg", "S1 on the disk protocol"),
     ("SimpleDBDisk.tla", "NEG_Disk_sizerotate.cfg", "size-triggered WAL rotation without flush (S11)"),
     ("SimpleDBDisk.tla", "NEG_Disk_walorder.cfg", "recovery unlinks WAL files in any order (S12)"),
+    ("SimpleDBDisk.tla", "NEG_Disk_renamefirst.cfg", "recovery renames the merged table before all inputs are gone (repaired by 42e1cd1)"),
     ("SimpleDBApi.tla", "NEG_SimpleDBApi.cfg", "PutBytes logs before validating (S5)"),
     ("Lineage.tla", "NEG_Lineage3.cfg", "lineages with always-dropped tombstones"),
 ]
